@@ -919,6 +919,9 @@ pub fn write_evidence(
     for (k, v) in &summary.extra {
         coverage[k] = v.clone();
     }
+    if let Ok(t) = std::env::var("JBKV_TSAN_RESULT") {
+        coverage["thread_sanitizer_tier"] = serde_json::Value::String(t);
+    }
     let ev = serde_json::json!({
         "property_id": id,
         "tier": tier.name(),
@@ -931,8 +934,9 @@ pub fn write_evidence(
     });
     let dir = PathBuf::from(format!("{VERIF}/evidence"));
     std::fs::create_dir_all(&dir).unwrap();
+    let suffix = std::env::var("JBKV_EVIDENCE_SUFFIX").unwrap_or_default();
     std::fs::write(
-        dir.join(format!("{id}.json")),
+        dir.join(format!("{id}{suffix}.json")),
         serde_json::to_string_pretty(&ev).unwrap(),
     )
     .unwrap();
